@@ -553,6 +553,32 @@ func checkC08(p *Prog, r *Report) {
 	// ---- R8.11 exhaustive clean-up / migration loops ----
 	r.Rule("R8.11", "The loops that must treat every element of a collection do so: no early exit, and no path through an iteration that skips the operation (every started candidate's I/O is aborted at close).", 1)
 	checkForAllLoops(p, r, "C08")
+
+	r.Rule("R8.13", "No mutex that the close-time abort path acquires (abortIO: expire the deadlines, abort a shared write, close the conn — and everything they reach) is held across a read or write on a stream connection, which can block for as long as the peer does not read or write: the abort would wait for that mutex and Close would never return.", 3)
+	checkNoStreamIOUnderAbortLocks(p, r)
+
+	r.Rule("R8.12", "The handle of the running gathering cycle (its cancel function and its done channel) is stored only where a cycle is started and at construction: nothing forgets a cycle that was cancelled but has not finished, so the close callback cancels and awaits the last cycle started, whatever happened in between (Restart only cancels).", 2)
+	checkCycleHandleWriters(p, r)
+}
+
+// checkCycleHandleWriters: shared by C08 (R8.12) and, through checkGatherCycleControl, C11 / C18.
+func checkCycleHandleWriters(p *Prog, r *Report) {
+	for _, fld := range []string{"Agent.gatherCandidateDone", "Agent.gatherCandidateCancel"} {
+		ws := p.WritersOf(fld)
+		okAll, n := true, 0
+		var bad []string
+		for f := range ws {
+			n++
+			root := f.Root().Name
+			if f.Name == "Agent.GatherCandidates$1" || root == "createAgentBase" || root == "newAgentWithConfig" || root == "newAgentFromConfig" {
+				continue
+			}
+			okAll = false
+			bad = append(bad, f.Name)
+		}
+		sort.Strings(bad)
+		r.Check(okAll && n > 0, "writers of "+fld, "agent.go", "the cycle start (GatherCandidates task) and construction only", fld+" is also written in "+strings.Join(bad, ", ")+": a cycle that was cancelled but is still running is no longer tracked — Close / GracefulClose return while its goroutines keep running, holding sockets and calling the application's Net and filter callbacks")
+	}
 }
 
 // classifyGoroutine decides how the goroutine body terminates.
@@ -721,4 +747,150 @@ func checkNotifierGracefulWait(p *Prog, r *Report) {
 
 func isErrorType(t types.Type) bool {
 	return t != nil && types.Identical(t, types.Universe.Lookup("error").Type())
+}
+
+// checkNoStreamIOUnderAbortLocks (R8.13).
+func checkNoStreamIOUnderAbortLocks(p *Prog, r *Report) {
+	root := p.Fn("candidateBase.abortIO")
+	if !r.Anchor("candidateBase.abortIO", root != nil) {
+		return
+	}
+	cg := p.CG()
+	sync := func(e *CallEdge) bool { return !e.Go }
+	reach := cg.Reachable([]*Func{root}, sync)
+	abortLocks := map[string]string{} // mutex -> a function of the abort path that takes it
+	for f := range reach {
+		if f.Body == nil {
+			continue
+		}
+		f := f
+		walkBody(f, func(n ast.Node) bool {
+			if c, ok := n.(*ast.CallExpr); ok {
+				if k, op := p.lockKey(c); op == "lock" && k != "" {
+					if _, dup := abortLocks[k]; !dup || f.Name < abortLocks[k] {
+						abortLocks[k] = f.Name
+					}
+				}
+			}
+			return true
+		})
+	}
+	var names []string
+	for k, v := range abortLocks {
+		names = append(names, k+" ("+v+")")
+	}
+	sort.Strings(names)
+	r.Extra["abort_path_mutexes"] = names
+	r.Check(len(abortLocks) >= 2, "mutexes taken on the abort path", p.Pos(root.Body.Pos()), strings.Join(names, ", "), "fewer than two mutexes found on the abort path: the call graph no longer resolves the deadline / close implementations")
+
+	// direct stream I/O: Read / Write on a net.Conn-like value, or the framing helpers over one
+	isStreamIO := func(c *ast.CallExpr) bool {
+		sel, ok := unparen(c.Fun).(*ast.SelectorExpr)
+		if !ok || (sel.Sel.Name != "Read" && sel.Sel.Name != "Write") {
+			return false
+		}
+		t := p.TypeOf(sel.X)
+		if t == nil {
+			return false
+		}
+		return hasMethod(t, "SetReadDeadline") && hasMethod(t, "RemoteAddr") // a net.Conn (stream), not a packet conn
+	}
+	direct := map[*Func]bool{}
+	for _, f := range p.AllFuncs {
+		if f.Body == nil || f.Pkg != p.Ice {
+			continue
+		}
+		f := f
+		walkBody(f, func(n ast.Node) bool {
+			if c, ok := n.(*ast.CallExpr); ok && isStreamIO(c) {
+				direct[f] = true
+			}
+			return true
+		})
+		for _, c := range p.CallsIn(f, false, func(n string, _ *ast.CallExpr) bool {
+			return n == "io.ReadFull" || n == "io.ReadAtLeast" || n == "io.Copy"
+		}) {
+			if len(c.Args) > 0 {
+				if t := p.TypeOf(c.Args[0]); t != nil && hasMethod(t, "SetReadDeadline") {
+					direct[f] = true
+				}
+			}
+		}
+	}
+	// functions that perform stream I/O synchronously (fixpoint over non-go call edges)
+	does := map[*Func]bool{}
+	for f := range direct {
+		does[f] = true
+	}
+	for changed := true; changed; {
+		changed = false
+		for f, es := range cg.Out {
+			if does[f] {
+				continue
+			}
+			for _, e := range es {
+				if !e.Go && e.Kind != "arg" && does[e.Callee] {
+					does[f], changed = true, true
+					break
+				}
+			}
+		}
+	}
+	r.Check(len(direct) >= 3, "stream I/O sites", "tcp_packet_conn.go", fmt.Sprintf("%d functions read or write a stream connection directly", len(direct)), "fewer than three functions with stream I/O found (rule instance lost)")
+	nSites := 0
+	for _, f := range p.AllFuncs {
+		if f.Body == nil || f.Pkg != p.Ice {
+			continue
+		}
+		f := f
+		walkBody(f, func(n ast.Node) bool {
+			c, ok := n.(*ast.CallExpr)
+			if !ok {
+				return true
+			}
+			blocking := isStreamIO(c)
+			if !blocking {
+				for _, e := range cg.Out[f] {
+					if e.Call == c && !e.Go && e.Kind != "arg" && does[e.Callee] {
+						blocking = true
+					}
+				}
+			}
+			if !blocking {
+				return true
+			}
+			nSites++
+			held := p.HeldAt(f, c)
+			var bad []string
+			for k := range held {
+				if _, isAbort := abortLocks[k]; isAbort {
+					bad = append(bad, k)
+				}
+			}
+			sort.Strings(bad)
+			if len(bad) > 0 {
+				r.Fail("stream I/O under an abort-path mutex in "+f.Name, p.Pos(c.Pos()), f.Name+" performs (or calls something that performs) a read/write on a stream connection while holding "+strings.Join(bad, ", ")+", which "+abortLocks[bad[0]]+" needs on the close-time abort path: a write blocked because the peer stopped reading keeps the mutex, the abort waits for it, and Close / GracefulClose never return")
+			}
+			return true
+		})
+	}
+	r.Check(nSites >= 3, "stream I/O call sites examined", "tcp_packet_conn.go", fmt.Sprintf("%d call sites, none under an abort-path mutex", nSites), "fewer than three call sites examined")
+}
+
+func hasMethod(t types.Type, name string) bool {
+	ms := types.NewMethodSet(t)
+	if ms.Lookup(nil, name) != nil {
+		return true
+	}
+	if _, isPtr := t.(*types.Pointer); !isPtr {
+		if _, isIface := t.Underlying().(*types.Interface); !isIface {
+			return types.NewMethodSet(types.NewPointer(t)).Lookup(nil, name) != nil
+		}
+	}
+	for i := 0; i < ms.Len(); i++ {
+		if ms.At(i).Obj().Name() == name {
+			return true
+		}
+	}
+	return false
 }
